@@ -72,13 +72,25 @@ func (monC05) AtEnd(x *Exec) {
 		}
 		v := View(p)
 		for path, oi := range x.W.Objs {
-			if oi.Kind != "action" || oi.Plan != pi || oi.Group == "cont" {
+			if oi.Kind != "action" || oi.Plan != pi {
 				continue
 			}
 			cs := h.Calls[path]
 			st := v.Objs[path]
 			if st == nil {
 				continue
+			}
+			if oi.Group == "cont" {
+				// a continuous check is run again and again and every run starts with an empty attempt list: what is stored
+				// at the end is the record of the LAST run. Without retries a run is one invocation, and the response names
+				// its invocation, so the stored attempt must be the last invocation's - not an earlier run's.
+				if oi.Act == nil || oi.Act.Retries != 0 || len(cs) == 0 || len(st.Att) == 0 {
+					continue
+				}
+				if last := cs[len(cs)-1]; !last.Returned || last.CtxDone {
+					continue
+				}
+				cs = cs[len(cs)-1:]
 			}
 			if len(st.Att) != len(cs) {
 				x.Report(&Violation{Property: "C05", Rule: "attempts-do-not-match-invocations", Signature: "count",
@@ -216,6 +228,13 @@ func init() {
 			}
 			for _, sc := range FamilyRetrySeq(tier) {
 				items = append(items, explore("C05", sc, 1, true))
+			}
+			// "every invocation is recorded" for actions that are invoked many times: continuous checks, whose k-th run
+			// differs from the earlier ones (passes, then fails)
+			for _, sc := range FamilyCont(tier) {
+				if strings.HasPrefix(sc.Name, "cont-min-") || strings.HasPrefix(sc.Name, "cont-plan-k") || strings.HasPrefix(sc.Name, "cont-block-k") {
+					items = append(items, exploreCap("C05", sc, 1, false, 30))
+				}
 			}
 			return items
 		},
